@@ -39,6 +39,7 @@ the exhaustive enumeration of all strings of length <= 4/5 over the path alphabe
 import Flatland.Path
 import Flatland.Spec.C14
 import Proofs.Lemmas.C14Work
+import Proofs.Lemmas.C14Ord
 import Proofs.Lemmas.C14Slice
 import Proofs.Lemmas.C14Print
 import Proofs.Lemmas.C14Tok
@@ -69,6 +70,60 @@ example : (match evalOps (.mk .list [] [] [.mk .list [] [] [.mk .scalar [] [] []
     | .error _ => false) = true := by
   rw [evalOps_denotes _ _ _ _ (Or.inl (by decide))]
   decide
+
+/-! ### the work list, for every op list (no `Uni`): which error comes first -/
+
+/-- **evaluator = denotation with explicit error precedence**, every op list, strict or not, zero
+    slice steps or not: the FIFO work list computes the depth-first reading; when several steps of
+    the evaluation fail, the error raised is the one at the smallest slice depth, and among those
+    the first in sequence order (`denOrd`). -/
+theorem evalOps_denotes_gen (root : Node) (strict : Bool) (ops : List Op) (el : Pos) :
+    evalOps root strict ops el = (denOrd root strict ops 0 el).forget := by
+  unfold evalOps
+  have := work_level_gen root strict ops.length ops (Nat.le_refl _) 0 [el]
+  simp only [List.map_cons, List.map_nil] at this
+  rw [this]
+  simp only [flatMapR]
+  cases denOrd root strict ops 0 el <;> simp [Ranked.merge]
+
+/-- when only one kind of error can arise (`Uni`) the precedence is immaterial: `denOrd` forgets to
+    the plain reading `denOps` (proved directly, by induction on the op list) -/
+theorem denOrd_forget_of_uni (root : Node) (strict : Bool) (ops : List Op) (el : Pos)
+    (hz : Uni strict ops) :
+    (denOrd root strict ops 0 el).forget = denOps root strict ops el :=
+  denOrd_forget_of_uni' root strict ops hz 0 el
+
+/-- `evalOps_denotes` again, as a corollary of the general theorem -/
+theorem evalOps_denotes_cor (root : Node) (strict : Bool) (ops : List Op) (el : Pos)
+    (hz : Uni strict ops) :
+    evalOps root strict ops el = denOps root strict ops el := by
+  rw [evalOps_denotes_gen, denOrd_forget_of_uni root strict ops el hz]
+
+/-- the witness that the precedence matters, and that it is by depth first: a Dict whose first field
+    is a Dict without `a` and whose second field is a List; `[:]/a` … on it -/
+def mixedTree : Node :=
+  .mk .map [] [] [.mk .map ['x'] ['x'] [.mk .list ['a'] ['a'] [.mk .scalar [] [] []]],
+                  .mk .map ['y'] ['y'] []]
+
+/-- `[:]/a[::0]` strict: the lookup of `a` fails below `y` (second in sequence order, depth 1), the
+    zero step is reached below `x/a` (first in sequence order, depth 1 too): ValueError, the earlier
+    one.  A step-by-step reading over the whole selection (`denote`) would meet the LookupError first. -/
+example : evalOps mixedTree true [.slice none none none, .name (some ['a']), .slice none none (some 0)] []
+    = .error .value := by
+  rw [evalOps_denotes_gen]; decide
+
+/-- `[:][:]/q` vs a zero step one level down: in `[:]/a[:][::0]` with a failing `a` below `y`, the
+    LookupError (depth 1) beats the ValueError (depth 2) although it comes later in sequence order -/
+example : evalOps mixedTree true
+    [.slice none none none, .name (some ['a']), .slice none none none, .slice none none (some 0)] []
+    = .error .lookup := by
+  rw [evalOps_denotes_gen]; decide
+
+/-- the plain depth-first reading `denOps` would say ValueError there (first in sequence order) — the
+    reason `evalOps_denotes` needs `Uni` and `evalOps_denotes_gen` needs `denOrd` -/
+example : denOps mixedTree true
+    [.slice none none none, .name (some ['a']), .slice none none none, .slice none none (some 0)] []
+    = .error .value := by decide
 
 /-! ### `_canonicalize` introduces no zero stride -/
 
@@ -122,6 +177,27 @@ theorem find_denotes (root : Node) (start : Pos) (path : Str) (single strict : B
   rw [ht]
   simp only [evalOps_denotes root strict ops start hu]
   cases denOps root strict ops start with
+  | error e => rfl
+  | ok res =>
+    cases single with
+    | false => rfl
+    | true =>
+      simp only [findResOf, Bool.not_true, Bool.false_eq_true, if_false, if_true, singleOf]
+      match res with
+      | [] => rfl
+      | [p] => rfl
+      | p :: q :: r => rfl
+
+/-- **`find` = the `single` table of the ordered reading of the compiled path**: every string that
+    compiles, every tree, start, `single`, `strict` — no hypothesis on zero steps -/
+theorem find_denotes_gen (root : Node) (start : Pos) (path : Str) (single strict : Bool) (ops : List Op)
+    (ht : tokenize path = .ok ops) :
+    find root start path single strict
+      = findResOf single strict (denOrd root strict ops 0 start).forget := by
+  unfold find
+  rw [ht]
+  simp only [evalOps_denotes_gen root strict ops start]
+  cases (denOrd root strict ops 0 start).forget with
   | error e => rfl
   | ok res =>
     cases single with
